@@ -295,6 +295,31 @@ def run(fx, tier):
             v.check(ok, 'R-DOM', '%s::operator()(%s)%s [%s]' % (cls, tag, f.inst()[:40], f.tu),
                     'a reconnect-worthy transport error starts async_reconnect and resumes at on_reconnect',
                     key='C02:R-DOM:%s:reconnect-trigger' % cls, where=f.file)
+    # a stream operation cancelled because its stream was REPLACED (reconnect finished while it was pending) on a client
+    # that is still open is not a cancellation of the caller's request: both siblings go through async_reconnect (which
+    # answers try_again); completing with operation_aborted there ends un-cancelled requests and nothing re-sends them
+    for cls, tag in (('read_op', 'on_read'), ('write_op', 'on_write')):
+        for f in fx.functions(cls=cls, name='operator()', tag=tag):
+            n_open = 0
+            bad = None
+            for pi, p in enumerate(op_paths(fx, f)):
+                opened = None
+                for c in p.conds():
+                    o = p.origin(c, c.x)
+                    if contains(o, lambda n: is_call(n, 'is_open')):
+                        cm = p.cmp(c)
+                        opened = (cm[0] == '!=') if cm else None
+                if opened is not True:
+                    continue
+                n_open += 1
+                for comp in p.entered('complete'):
+                    if ec_arg_class(p, p.arg(comp, 0)) == ('literal', 'operation_aborted'):
+                        bad = 'path %d completes with operation_aborted although the client is open' % pi
+            if n_open == 0:
+                raise AnalysisBroken('%s::(%s): no path on which the client is known to be open' % (cls, tag))
+            v.check(bad is None, 'R-DOM', '%s::operator()(%s)%s:open-client-never-aborted [%s]' % (cls, tag, f.inst()[:30], f.tu),
+                    'with the client open the continuation reports success, reconnects, or reports no_recovery - never operation_aborted%s' % (
+                        '' if bad is None else ' — NOT: ' + bad), key='C02:R-DOM:%s:open-client-never-aborted' % cls, where=f.file)
     # an unacknowledged exchange is never ended by anybody but its acknowledgement, a re-send or cancel()
     from c04 import waiter_completion_rules
     v.rule('R-OWN', 'who may complete a parked reply handler, and with what')
